@@ -237,3 +237,27 @@ Print Assumptions C08_dict_image.
 Print Assumptions C08_db_arith.
 Print Assumptions C08_dict_arith.
 Print Assumptions C08_iter_arith.
+
+(* ---- write/read HISTORIES on one store object (History.v): for any history of writes, write-backs, add /
+   flush / commit / reload on any number of slots, a read returns the decoded image of the LAST write to that
+   slot; under any equivalence one trip respects it is equivalent to the model last written explicitly ---- *)
+From PAFC08 Require Import History HistoryWitness.
+Theorem C08_history_last_write_wins : forall (M R : Type) (enc : M -> option R) (dec : R -> M) (h : list (op M)) (k : nat),
+  read M R dec (run M R enc dec h) k = option_map dec (image M R enc dec h k).
+Proof. exact last_write_wins. Qed.
+Theorem C08_history_new_session : forall (M R : Type) (enc : M -> option R) (dec : R -> M) (h : list (op M)) (k : nat),
+  in_session R (run M R enc dec h k) = true ->
+  stored R (run M R enc dec (Reload M :: h) k) = image M R enc dec h k /\
+  read M R dec (run M R enc dec (Reload M :: h)) k = option_map dec (image M R enc dec h k).
+Proof. exact reload_stored. Qed.
+Theorem C08_history_other_slots : forall (M R : Type) (enc : M -> option R) (dec : R -> M) (h : list (op M)) (o : op M) (k : nat),
+  match o with Write _ j _ | WriteBack _ j => j <> k | _ => True end ->
+  read M R dec (run M R enc dec (o :: h)) k = read M R dec (run M R enc dec h) k.
+Proof. exact other_slots. Qed.
+Theorem C08_history_equiv : forall (M R : Type) (enc : M -> option R) (dec : R -> M) (E : M -> M -> Prop),
+  (forall a b c, E a b -> E b c -> E a c) -> (forall m r, enc m = Some r -> E m (dec r)) ->
+  forall (h : list (op M)) (k : nat) (m : M), last_write M R enc h k = Some m ->
+  exists m', read M R dec (run M R enc dec h) k = Some m' /\ E m m'.
+Proof. exact history_equiv. Qed.
+Print Assumptions C08_history_last_write_wins.
+Print Assumptions C08_history_equiv.
